@@ -127,8 +127,13 @@ def run(ctx):
         text = str(el)
         # what the writer put between the quotes, and what the reader makes of it
         written = text[text.index('v="') + 3:text.rindex('"')]
-        back = xml_handler.XMLElement.from_string(text)
-        got = back.attrib._XMLAttributes__data.get('v')
+        try:
+            back = xml_handler.XMLElement.from_string(text)
+            got = back.attrib._XMLAttributes__data.get('v')
+        except Exception as ex:  # noqa
+            got = None
+            ctx.report('xml_handler', 'written element does not load: ' + type(ex).__name__, dict(has_apos="'" in s),
+                       dict(value=s, written=written, error=repr(ex)[:200]))
         ctx.count_eval(key=s)
         cases.append((vlib.zlist([ord(ch) for ch in s]), [ord(ch) for ch in written] + [-1] + [ord(ch) for ch in (got or '')]))
         meta.append(s)
